@@ -526,12 +526,27 @@ type clientState struct {
 	child bool // a goroutine started by the library itself
 }
 
+// safeExec: if examining what the library returned blows up (a result of a
+// shape no correct implementation returns), that is an outcome - one that can
+// never equal the solo reference of a healthy tree - not a crash of the worker.
+func safeExec(p *Prepared) (o *Outcome) {
+	defer func() {
+		if r := recover(); r != nil {
+			if _, ok := r.(zzsimrt.BudgetExceeded); ok {
+				panic(r)
+			}
+			o = &Outcome{Panic: fmt.Sprintf("malformed result: the harness could not examine what %s returned: %v", p.Op.Fn, r), Fn: p.Op.Fn}
+		}
+	}()
+	return execOp(p)
+}
+
 func clientMain(id int, cs *clientState, wg *sync.WaitGroup) {
 	defer wg.Done()
 	debug.SetPanicOnFault(true)
 	zzsimrt.ClientStart(id)
 	for _, p := range cs.ops {
-		o := execOp(p)
+		o := safeExec(p)
 		cs.outs = append(cs.outs, o)
 		zzsimrt.Yield(zzsimrt.KOpDone)
 	}
